@@ -122,7 +122,7 @@ def wire_rules(repo, rep):
         ps = [p.name for p in f.params]
         base = 'R-WIRE::geodepy/transform.py::%s::' % fname
         # three covariance configurations of the quantifier: absent, 3x3, 3x1 column of variances (= its diagonal matrix)
-        full = Mat([[Rat.sym('v%d%d' % (i, j)) for j in range(3)] for i in range(3)], (3, 3))
+        full = Mat([[Rat.sym('v%d%d' % (min(i, j), max(i, j))) for j in range(3)] for i in range(3)], (3, 3))
         col = Mat([[Rat.sym('v%d%d' % (i, i))] for i in range(3)], (3, 1))
         diag = Mat([[Rat.sym('v%d%d' % (i, i)) if i == j else C(0) for j in range(3)] for i in range(3)], (3, 3))
         for cfg, vin, vref in (('', NONE, NONE), ('[3x3]', full, full), ('[3x1]', col, diag)):
@@ -259,7 +259,7 @@ def covariance_rules(repo, rep):
         ps = [p.name for p in f.params]
         for cfg in ('3x3', '3x1', 'zero'):
             if cfg == '3x3':
-                vin = Mat([[Rat.sym('v%d%d' % (i, j)) for j in range(3)] for i in range(3)], (3, 3))
+                vin = Mat([[Rat.sym('v%d%d' % (min(i, j), max(i, j))) for j in range(3)] for i in range(3)], (3, 3))
                 vref = vin
             elif cfg == 'zero':
                 # the zero matrix is a symmetric PSD covariance (a point held fixed): the parameter contribution must still come back
@@ -328,7 +328,7 @@ def helmert_cov(x, y, z, Vc, forward):
 def stage_rules(repo, rep):
     """the three covariance stages one at a time, each over its own symbolic inputs (decidable where the end-to-end comparison is too deep):
     local->Cartesian rotation, propagation through the similarity with the published set, Cartesian->local rotation"""
-    V = Mat([[Rat.sym('v%d%d' % (i, j)) for j in range(3)] for i in range(3)], (3, 3))
+    V = Mat([[Rat.sym('v%d%d' % (min(i, j), max(i, j))) for j in range(3)] for i in range(3)], (3, 3))
     for fname, oname, txt in (('vcv_local2cart', 'local2cart', 'R V R^T'), ('vcv_cart2local', 'cart2local', 'R^T V R')):
         f = repo.func('geodepy.statistics', fname)
         rep.analysed(f)
@@ -376,7 +376,7 @@ def shape_rules(repo, rep):
         ps = [p.name for p in f.params]
         for shp in ((3, 3), (3, 1)):
             ev = Evaluator(repo, opaque={'grid2geo', 'llh2xyz', 'xyz2llh', 'geo2grid'})
-            V = Mat([[Rat.sym('v%d%d' % (i, j)) for j in range(shp[1])] for i in range(shp[0])], shp)
+            V = Mat([[Rat.sym('v%d%d' % ((min(i, j), max(i, j)) if shp[0] == shp[1] else (i, j))) for j in range(shp[1])] for i in range(shp[0])], shp)
             val = ev.call_function(f, {ps[0]: Rat.sym('zone'), ps[1]: Rat.sym('east'), ps[2]: Rat.sym('north'), ps[3]: Rat.sym('ell_ht'), ps[4]: V})
             key = 'R-SHAPE::geodepy/transform.py::%s::vcv%dx%d' % (fname, shp[0], shp[1])
             probs = [(k, wh, msg) for k, wh, msg in ev.diagnostics if k in ('shape', 'shape-store')]
